@@ -126,7 +126,7 @@ CCeremonyWindow(pre, e) ==
             /\ pre.per >= CeremonyFrom(t.type)
             /\ p.status \in CeremonyCandidateNum /\ p.nfl >= p.req
             /\ CeremonyBit(t.type) \notin SetOf(p.vtx)
-            /\ CeremonyBit(t.type) \in SetOf(MemberOf(e.life, t.from).vtx)
+            /\ (HasFlag(e.flags, ValidationFinishedFlag) \/ CeremonyBit(t.type) \in SetOf(MemberOf(e.life, t.from).vtx))
 
 \* the registry (and with it the validator set) changes in identity-update blocks only
 CRegistryOnlyInIdentityUpdate(pre, e) ==
